@@ -116,6 +116,7 @@ const FAULTS: [ErrorKind; 8] = [ErrorKind::Interrupted, ErrorKind::TimedOut, Err
     ErrorKind::ConnectionAborted, ErrorKind::BrokenPipe, ErrorKind::WouldBlock, ErrorKind::HostUnreachable];
 
 fn some_message(g: &mut Rng) -> Vec<u8> {
+    if g.chance(1, 3) { return any_variant(g); }
     match g.below(7) {
         0 => initiation(),
         1 => peer_up(g.below(3) as usize),
@@ -132,13 +133,19 @@ fn valid_stream(g: &mut Rng) -> Vec<Vec<u8>> {
     let np = g.range(1, 3) as usize;
     for i in 0..np { v.push(peer_up(i)); }
     for n in 0..g.range(0, 6) {
-        match g.below(6) {
-            0 => v.push(statistics(g.below(np as u64) as usize)),
-            1 => v.push(peer_down(g.below(np as u64) as usize)),
-            _ => v.push(route_monitoring(g.below(np as u64) as usize, n as usize)),
+        let p = g.below(np as u64) as usize;
+        match g.below(9) {
+            0 => v.push(statistics(p)),
+            1 => v.push(peer_down(p)),
+            2 => v.push(statistics_variant(p, g.below(N_STATISTICS_VARIANTS))),
+            3 => v.push(peer_down_variant(p, g.below(N_PEER_DOWN_VARIANTS))),
+            4 => v.push(route_mirroring(p, g.below(3))),
+            _ => v.push(route_monitoring(p, n as usize)),
         }
     }
-    if g.chance(1, 4) { v.push(termination()); }
+    // a session ends with any legal Termination message (string and reason TLVs in any number and order)
+    match g.below(8) { 0 | 1 => v.push(termination()), 2 | 3 => v.push(termination_variant(g.below(N_TERMINATION_VARIANTS))), _ => {} }
+    if g.chance(1, 4) { v[0] = initiation_variant(g.below(N_INITIATION_VARIANTS)); }
     v
 }
 
@@ -457,6 +464,7 @@ fn main() {
     let mut hangs = 0usize;
     for chunk in lines.chunks(64) {
         if hangs >= 8 { rec.bump("stopped-early-after-8-hangs"); break; }
+        verif_harness::journal(&chunk.iter().map(|(l, _)| base_line(l)).collect::<Vec<_>>());
         let obs: Vec<Obs> = rt.block_on(async {
             let hs: Vec<_> = chunk.iter().map(|(line, seed)| {
                 let parts: Vec<&str> = line.split('|').collect();
